@@ -48,7 +48,11 @@ def _bits(dtype, n):
     width = 32 if dtype == "float32" else 64
     special = SPECIAL32 if width == 32 else SPECIAL64
     one = st.one_of(st.sampled_from(special), st.integers(0, 2**width - 1), st.integers(0, 2**width - 1))
-    return st.lists(one, min_size=n, max_size=n)
+    # whole-array patterns: fields that are zero everywhere (+0 / -0 mixed: e.g. -1.0 * zeros, a resting body's -omega x r) or constant
+    zeros = st.lists(st.sampled_from([0, 1 << (width - 1)]), min_size=n, max_size=n)
+    const = st.sampled_from(special + [0x3F800000 if width == 32 else 0x3FF0000000000000]).map(lambda b: [b] * n)
+    return st.one_of(st.lists(one, min_size=n, max_size=n), st.lists(one, min_size=n, max_size=n), st.lists(one, min_size=n, max_size=n),
+                     st.lists(one, min_size=n, max_size=n), zeros, const)
 
 
 def _strategy(tier, var):
